@@ -422,6 +422,35 @@ def job_counts(_):
     return [res(name, REFUTED, backend="native", strength="bounded", replayed=True, replay=dict(counts=counts, observed=str(got), expected=str(exp)))]
 
 
+def job_int_reading(_):
+    """a reading handed over as an INTEGER (decode_output accepts str / int / list of bool): the integer r denotes the register contents whose
+    binary numeral is r, i.e. the same value as the string of len(returns) characters spelling r.  A deviation that is exactly 'the numeral is
+    padded on the right instead of the left' is named after the finding; anything else is not."""
+    from qlasskit import qlassf
+    out = []
+    for ann, expr in (("Qint[2]", "a"), ("Qint[4]", "a + 0"), ("Tuple[bool, Qint[2]]", "(a[0], a)"), ("bool", "a[0]")):
+        qf = qlassf(f"def rd(a: Qint[{4 if ann == 'Qint[4]' else 2}]) -> {ann}:\n\treturn {expr}", to_compile=False)
+        n = len(qf.returns)
+        bad, signature = None, True
+        for r in range(1 << n):
+            want = qf.decode_output(format(r, f"0{n}b"))
+            try:
+                got = qf.decode_output(r)
+            except Exception as ex:  # noqa
+                got = f"raises {type(ex).__name__}: {ex}"[:120]
+            if got != want:
+                bad = bad or dict(reading=r, observed=str(got), expected=str(want), same_reading_as_string=format(r, f"0{n}b"))
+                try:
+                    if got != qf.decode_output(format(r, "b").ljust(n, "0")):
+                        signature = False
+                except Exception:  # noqa
+                    signature = False
+        nm = f"C05.decode_output.int-reading[{ann}{', numeral padded on the right' if bad and signature else ''}]"
+        out.append(res(nm, PROVED, backend="native", strength="bounded") if not bad else
+                   res(nm, REFUTED, backend="native", strength="bounded", replayed=True, replay=dict(program=f"-> {ann}: return {expr}", call="qf.decode_output(<int>)", **bad)))
+    return out
+
+
 def set_partitions(n):
     """all partitions of range(n) as label lists (restricted growth strings)"""
     def rec(i, labels, mx):
@@ -542,7 +571,7 @@ def run(tier, only=None):
     from .c01_l3 import family
     rep = Report("C05", tier, "proof", f"./check C05 --tier {tier}")
     jobs = [(job_sig, s) for s in signature_shapes(tier)]
-    jobs.append((job_counts, None))
+    jobs += [(job_counts, None), (job_int_reading, None)]
     for k in ((1, 2, 3) if tier == "quick" else (1, 2, 3, 4)):
         jobs.append((job_counts_proved, k))
     for origin, src in family(tier, seed=0):
